@@ -49,7 +49,7 @@ def confirm(src, prop, name):
     # the demos written by the seeding agents refer to their own worktree path; reuse that path for the scratch copy
     txt = open(os.path.join(src, demo)).read()
     import re
-    m = re.search(r"/tmp/mut\d?-C\d\d", txt)
+    m = re.search(r"/tmp/mut\w?-C\d\d", txt)
     wt = m.group(0) if m else "/tmp/seedchk-%s" % name
     made = False
     if not os.path.exists(wt):
